@@ -1,0 +1,24 @@
+//go:build verif
+
+package wallet
+
+import "sync/atomic"
+
+// Verification hook (build tag verif only): lets the runtime-monitoring harness widen the window
+// between the steps of ProcWalletSetPasswd. Without the tag verifDelay is an empty stub.
+
+var verifDelayHook atomic.Value // func(point string)
+
+// VerifSetDelayHook installs f (nil removes it); f is called at every verifDelay call site.
+func VerifSetDelayHook(f func(point string)) {
+	if f == nil {
+		f = func(string) {}
+	}
+	verifDelayHook.Store(f)
+}
+
+func verifDelay(point string) {
+	if f, ok := verifDelayHook.Load().(func(string)); ok {
+		f(point)
+	}
+}
